@@ -685,6 +685,17 @@ func (v *Verifier) axiomsFor(r *Run, terms []*Term, extra []*Term) []*Term {
 			Forall([]*Term{a, b, cc}, Implies(And(lt(a, b), lt(b, cc)), lt(a, cc))),
 			Forall([]*Term{a, b}, Or(App("=", SBool, a, b), lt(a, b), lt(b, a))))
 	}
+	// addresses of fields and slice elements are never nil
+	for _, n := range sortedKeys(c.ufs) {
+		if strings.HasPrefix(n, "elemptr!") || strings.HasPrefix(n, "fieldptr!") {
+			u := c.ufs[n]
+			var bs []*Term
+			for i, s := range u.Args {
+				bs = append(bs, Bound(fmt.Sprintf("ax.p%d", i), s))
+			}
+			out = append(out, Forall(bs, Gt(App(n, SInt, bs...), IntLit(0))))
+		}
+	}
 	if _, ok := c.ufs["strcat"]; ok {
 		a, b := Bound("ax.a", SStr), Bound("ax.b", SStr)
 		out = append(out, Forall([]*Term{a, b}, App("=", SBool, App("strlen", SInt, App("strcat", SStr, a, b)),
